@@ -34,6 +34,12 @@ LIFTS = {
         'anchor': r"for\s+mapping\s+in\s+line_mapping\s*\.split\(','\)\s*\{",
         'expect': [r'parse_vlq_segment_into', r'mappings\.push'],
     },
+    # body of the per-line loop of the function-map decoder (contains the per-mapping loop)
+    'hermes_line_body': {
+        'file': 'src/hermes.rs',
+        'anchor': r"for\s+line_mapping\s+in\s+raw_mappings\s*\.split\(';'\)\s*\{",
+        'expect': [r"split\(','\)", r'mappings\.push', r'let\s+mut\s+column\s*=\s*0'],
+    },
     # body of the per-token loop of SourceMapIndex::flatten
     'flatten_token_body': {
         'file': 'src/types.rs',
@@ -357,12 +363,19 @@ PROPS['C14'] = {
           'lifted function-map mapping body: every mapping text of exactly %d ASCII bytes x any previous (column, name_index, line)' % n,
           allow_uncovered=['three fields', 'negative name-index'] if n == 1 else (['three fields'] if n == 2 else None))
         for n in (1, 2, 3, 5, 9)
+    ] + [
+        H('c14_fm_line_n%d' % n, 'hermes_line', 'thorough', {1: 1500, 2: 3600, 3: 7200}[n], {1: 12, 2: 16, 3: 30}[n],
+          'lifted body of the per-line loop of the function-map decoder (real split(\',\'), per-line column reset): every line of '
+          'exactly %d bytes over {\',\', single-digit VLQ}, any previous name index and line' % n,
+          nocover=(n == 1), allow_uncovered=['two mappings on the line'] if n == 2 else None)
+        for n in (1, 2, 3)
     ],
     'assumptions': ['scope entries sorted by (line, column) as decode_hermes produces them for well-formed function maps',
                     'L1: loop headers of the function-map decoder (split(\';\'), split(\',\'), per-line column reset, initial line 1) are the harness\'s',
                     'S1 (Vec::push)'],
     'trusted': [S1, 'reference VLQ reader'],
-    'outside': ['per-line column reset and the initial line value of the function-map decoder (loop initialisers)',
+    'outside': ['the outermost loop of the function-map decoder (split(\';\'), skipping of empty lines) and its initial line value 1; the per-line column '
+                'reset is covered in the thorough tier only (c14_fm_line_*)',
                 'that a function map failing to parse leaves the whole map decodable end to end (needs decode_regular whole)',
                 'round trip through JSON', 'rewrite of Hermes maps'],
 }
